@@ -16,7 +16,7 @@ from weakref import WeakValueDictionary
 import claripy
 from claripy import operations
 from claripy.errors import BackendError, ClaripyOperationError
-from claripy.fp import FSort
+from claripy.fp import RM, FSort
 
 if TYPE_CHECKING:
     from collections.abc import Iterable, Iterator
@@ -436,6 +436,12 @@ class Base:
             return struct.pack("d", arg)
         if isinstance(arg, tuple):
             return b"".join(b"<" + Base._arg_serialize(a) + b">" for a in arg)
+        # floating-point sorts and rounding modes by their fields, not through hash(): that hashes a str, which
+        # differs from process to process, and the frontends pickle AST hashes (keys of replacements, seen constraints)
+        if isinstance(arg, FSort):
+            return b"FSort" + arg.exp.to_bytes(4, "little") + arg.mantissa.to_bytes(4, "little")
+        if isinstance(arg, RM):
+            return arg.value.encode()
         if hasattr(arg, "__hash__"):
             return hash(arg).to_bytes(8, "little", signed=True)
 
